@@ -517,7 +517,15 @@ pub fn run_script(script: &Value) -> Vec<Value> {
         (a[0].as_u64().unwrap(), a[1].as_u64().unwrap() as u32, a[2].as_u64().unwrap())
     });
     // instants far from the real clock, so that a stray Instant::now() cannot agree with the script
-    let base = Instant::now() + Duration::from_secs(1_000_000) + Duration::from_millis(base_ms);
+    // (base_off_ms < 0 puts the script's origin shortly before the real clock instead: used by C20 so that an
+    // ambient clock reading lands inside the script's own time range)
+    let base_off = script["base_off_ms"].as_i64().unwrap_or(1_000_000_000);
+    let real = Instant::now();
+    let base = if base_off >= 0 {
+        real + Duration::from_millis(base_off as u64) + Duration::from_millis(base_ms)
+    } else {
+        real.checked_sub(Duration::from_millis((-base_off) as u64)).unwrap_or(real) + Duration::from_millis(base_ms)
+    };
     // other agents created before (the global agent counter differs) and driven alongside
     let mut decoy_agents: Vec<StunAgent> = (0..decoys)
         .map(|i| StunAgent::builder(if i % 2 == 0 { TransportType::Udp } else { TransportType::Tcp }, u.local).build())
